@@ -179,7 +179,7 @@ func (c *DecodeCase) UnmarshalJSON(b []byte) error {
 // object (rhp4 ReadRequest/ReadResponse, gateway Stream.ReadRequest/ReadResponse):
 // a receiver that announces "at most N bytes" may allocate up to N before the bytes arrive
 // (types.Decoder checks prefixes against N), which is by design and bounded by N.
-// It is added to the budget and such cases are labelled. 0 for plain DecodeFrom.
+// Twice that limit is added to the budget and such cases are labelled. 0 for plain DecodeFrom.
 func limitSlack(e *gen.Entry, hint reflect.Value) uint64 {
 	if e.Name == "rhp2.RPCReadResponse" {
 		// since fix 85d8f3f the decoder rejects data lengths above rhp2.SectorSize and
@@ -195,7 +195,9 @@ func limitSlack(e *gen.Entry, hint reflect.Value) uint64 {
 	if !bounded || lim <= 0 {
 		return 0
 	}
-	return uint64(min(lim, 64<<20))
+	// twice: ReadString materialises the bytes and then copies them into a string (e.g. the
+	// description of an rhp4 RPCError, which may take up the whole limit of the response it replaces)
+	return 2 * uint64(min(lim, 64<<20))
 }
 
 func errClass(err error) string {
